@@ -340,7 +340,13 @@ func (t c20RT) RoundTrip(r *http.Request) (*http.Response, error) {
 func (h *c20H) proc() *c20Proc {
 	p := &c20Proc{h: h, pid: len(h.procs), rng: mrand.New(mrand.NewSource(vSeed()*7919 + int64(len(h.procs)) + int64(len(h.toks))*31))}
 	p.cache, p.cfg = vNewCfg(p, nil)
-	p.iss = NewACMEIssuer(p.cfg, ACMEIssuer{CA: h.srv.DirectoryURL(), TestCA: h.srv.DirectoryURL(), Email: h.email, Agreed: true, Logger: zap.NewNop()})
+	// every instance spells the (same) contact its own way: case and surrounding white space
+	// do not make another account, another lock or another storage key
+	email := h.email
+	if email != "" {
+		email = []string{email, strings.ToUpper(email), email + " ", " " + email, email + "\n", "\t" + email}[p.pid%6]
+	}
+	p.iss = NewACMEIssuer(p.cfg, ACMEIssuer{CA: h.srv.DirectoryURL(), TestCA: h.srv.DirectoryURL(), Email: email, Agreed: true, Logger: zap.NewNop()})
 	p.iss.httpClient = &http.Client{Transport: c20RT{p}, Timeout: 30 * time.Second}
 	p.cfg.Issuers = []Issuer{p.iss}
 	h.procs = append(h.procs, p)
